@@ -90,6 +90,8 @@ def doc_encode(w, cfg, t, x):
         return x
     if k == "cls":
         return encode_inst(w, cfg, t[1], x)
+    if k == "union":
+        return doc_encode_rt(w, cfg, x)  # "union-typed positions are encoded by runtime class"
     if k == "td":
         c = w["classes"][t[1]]
         ft = {f["name"]: f["ty"] for f in c["fields"]}
@@ -161,9 +163,7 @@ def class_succ(w, ci):
     out = set()
     for f in w["classes"][ci]["fields"]:
         if f["ty"] is not None:
-            for x in gen.walk_types(f["ty"]):
-                if not isinstance(x, str) and x[0] in ("cls", "td"):
-                    out.add(x[1])
+            out.update(gen.type_classes(f["ty"]))
     return out
 
 
@@ -214,7 +214,7 @@ CFGS = [c for c in ALL_CFGS if c["detailed"]]  # detailed_validation is irreleva
 
 def run(chk: framework.Check):
     rng = chk.rng
-    G = gen.Gen(rng)
+    G = gen.Gen(rng, unions=True)
     drv = lean.Driver()
     n_worlds = 400 if chk.tier == "quick" else 4000
     corr_fail = []
@@ -238,8 +238,8 @@ def run(chk: framework.Check):
                     chk.unmodelled += 1
                     continue
                 for cfg in CFGS:
-                    if not gen.supported(cfg, w, ty) or not all(
-                            gen.supported(cfg, w, ("cls", ci)) for ci in inst_classes(x)):
+                    if not gen.supported(cfg, w, ty, roundtrip=False) or not all(
+                            gen.supported(cfg, w, ("cls", ci), roundtrip=False) for ci in inst_classes(x)):
                         # the declared type, or the class of an instance met at an Any-typed position, is outside
                         # the documented support of this converter class
                         chk.note("unsupported-by-converter-class")
@@ -263,7 +263,10 @@ def run(chk: framework.Check):
                         chk.violation("model contradicts theorem C03_primitive (driver/model out of sync): " + sc, case, found_input=False)
                     # ---- oracle on the implementation
                     bad = oracle(w, cfg, ty, x, ri)
-                    roots = {t[1] for t in gen.walk_types(ty) if not isinstance(t, str) and t[0] in ("cls", "td")} | inst_classes(x)
+                    roots = set(gen.type_classes(ty)) | inst_classes(x)
+                    if gen.reach_unions(w, ty):
+                        chk.note("union-reachable:" + ("value-through-union" if any(
+                            not isinstance(t, str) and t[0] == "union" for t in gen.walk_types(ty)) else "in-class-fields"))
                     in_f39 = cfg["gen"] and td_on_cycle(w, roots)
                     if bad:
                         if (in_f39 and ri[0] == "ok" and primitive_only(ri[1]) and terms.canon_sx(tuples_as_lists(ri[1]))
